@@ -908,3 +908,52 @@ func ctxRegexFuncScenarios(n *int, prop string) []*Scenario {
 	}
 	return out
 }
+
+// wholeSourceScenarios: goverter:map . F where F can hold the source itself (F of type *S or S, source S or *S). The
+// field must receive a deep copy, never the source pointer.
+func wholeSourceScenarios(start int, prop string) []*Scenario {
+	var out []*Scenario
+	n := start
+	for _, srcPtr := range []bool{false, true} {
+		for _, fieldPtr := range []bool{false, true} {
+			for _, shape := range []string{"direct", "slice-of-pointers", "result-pointer"} {
+				n++
+				id := fmt.Sprintf("%05d", n)
+				sc := &Scenario{ID: "N" + id, PropGen: prop, PropVal: prop, Test: "Convert", Funcs: map[string]string{},
+					Desc: map[string]any{"class": fmt.Sprintf("whole-source-into-field srcptr=%v fieldptr=%v shape=%s", srcPtr, fieldPtr, shape)}}
+				conv := &model.Converter{OutPkg: "conv/generated", LitPkg: "conv"}
+				sc.Conv = conv
+				sd := &space.Decl{Pkg: "in", Name: "M" + id, Under: space.St(f("A", tInt), f("Tags", space.S(tStr)), f("Q", space.P(tInt)))}
+				ft := space.N(sd)
+				if fieldPtr {
+					ft = space.P(ft)
+				}
+				td := &space.Decl{Pkg: "out", Name: "V" + id, Under: space.St(f("A", tInt), f("Origin", ft))}
+				sc.Decls = []*space.Decl{sd, td}
+				sT, tT := space.N(sd), space.N(td)
+				src := sT
+				if srcPtr {
+					src = space.P(sT)
+				}
+				dst := tT
+				if shape == "result-pointer" {
+					dst = space.P(tT)
+				}
+				item := &model.Method{Name: "Convert", Src: src, Dst: dst, Set: conv.Set, Fields: map[string]*model.FieldCfg{"Origin": {Source: "."}}, NFieldSettings: 1}
+				sc.Methods = []*ScMethod{{Name: "Convert", Params: "source " + src.Go("conv"), Result: dst.Go("conv"), Lines: []string{"map . Origin"}, M: item}}
+				conv.Methods = []*model.Method{item}
+				if shape == "slice-of-pointers" {
+					// the method is reused for the elements of a list
+					item.Name = "Item"
+					sc.Methods[0].Name = "Item"
+					top := &model.Method{Name: "Convert", Src: space.S(src), Dst: space.S(dst), Set: conv.Set, Fields: map[string]*model.FieldCfg{}}
+					conv.Methods = []*model.Method{top, item}
+					sc.Methods = append([]*ScMethod{{Name: "Convert", Params: "source " + space.S(src).Go("conv"), Result: space.S(dst).Go("conv"), M: top}}, sc.Methods...)
+				}
+				sc.Mode = "value,alias,nomutate"
+				out = append(out, sc)
+			}
+		}
+	}
+	return out
+}
